@@ -318,6 +318,8 @@ func runSpecCheck(c *Ctx, rtl bool) {
 		matchedTotal += fm
 		c.Eval(fe)
 		c.Nontrivial(fm)
+		c.Outcome("points at which model and engine agree on a match (index, length, every capture list)", fm)
+		c.Outcome("points at which model and engine agree that there is no match", fe-fm)
 		if exampleCount < 10 && len(job.pats) > 0 {
 			exampleCount++
 			p := job.pats[len(job.pats)*2/3]
